@@ -907,6 +907,13 @@ class Sym:
     def atoms(self, d, rel, vals, is_bool=True):
         """list of canonical atoms for `d rel vals`"""
         if self.is_drop_flag(d):
+            # a boolean local assigned only constants (drop flags, `matches!` results).  On a concrete path its value
+            # is the constant assigned on that path: the edge is either trivially taken or infeasible.
+            if self.path_blocks is not None and is_bool:
+                defs = self.var_defs(strip(d)[1])
+                tr0 = truth_of(rel, vals)
+                if len(defs) == 1 and defs[0][0] == "const" and isinstance(defs[0][1], bool) and tr0 is not None:
+                    return [] if defs[0][1] == tr0 else [("false",)]
             return []
         ds = strip(d)
         # discriminant tests
@@ -955,10 +962,16 @@ class Sym:
             c = as_cmp(d, True)
             if c is not None:
                 op, a, b = c
+                if op in ("Gt", "Ge"):
+                    # a > b is b < a (also for NaN): one canonical spelling
+                    op, a, b = {"Gt": "Lt", "Ge": "Le"}[op], b, a
                 return [("fcmp", op if tr else "not " + op, self.arg_name(a), self.arg_name(b))]
         c = as_cmp(d, tr)
         if c is not None and c[0].startswith("Not"):
-            return [("fcmp", "not " + c[0][3:], self.arg_name(c[1]), self.arg_name(c[2]))]
+            op, a, b = c[0][3:], c[1], c[2]
+            if op in ("Gt", "Ge"):
+                op, a, b = {"Gt": "Lt", "Ge": "Le"}[op], b, a
+            return [("fcmp", "not " + op, self.arg_name(a), self.arg_name(b))]
         if c is not None:
             op, a, b = c
             # bit-level equality / inequality against constants
@@ -1037,6 +1050,20 @@ class Sym:
                 if len(rets) == 1:
                     body = closure_pred_name(self, cb, subst_upvars(rets[0], cap))
             return [("quant", q, self.iter_name(d[2][0]), body, tr)]
+        if d[0] == "call" and short(d[1]) in ("RangeInclusive::<Idx>::contains", "Range::<Idx>::contains") and len(d[2]) == 2 and tr:
+            # (a..=b).contains(&x)  ==  a <= x && x <= b   (only the positive form is a conjunction)
+            rg, x = unmut(d[2][0]), d[2][1]
+            lo = hi = None
+            incl = short(d[1]).startswith("RangeInclusive")
+            if incl and rg[0] == "call" and short(rg[1]) == "RangeInclusive::<Idx>::new" and len(rg[2]) == 2:
+                lo, hi = rg[2]
+            elif not incl and rg[0] == "aggr" and len(rg[2]) == 2:
+                lo, hi = rg[2]
+            px = self.poly(x)
+            plo = self.poly(lo) if lo is not None else None
+            phi_ = self.poly(hi) if hi is not None else None
+            if px is not None and plo is not None and phi_ is not None:
+                return [cmp_to_rel("Ge", px, plo), cmp_to_rel("Le" if incl else "Lt", px, phi_)]
         if d[0] == "call":
             return [("pred", self.name(d), tr)]
         if d[0] == "var":
@@ -1224,6 +1251,8 @@ def closure_pred_name(sym, cbody, ret):
         x, y = nm(a), nm(b)
         if op in ("Eq", "Ne") and y == "x":
             x, y = y, x
+        if op in ("Gt", "Ge"):
+            op, x, y = {"Gt": "Lt", "Ge": "Le"}[op], y, x
         return "%s %s %s" % (x, op, y)
     return nm(r)
 
@@ -1331,4 +1360,7 @@ def atom_str(a):
         return "bit %s = %d" % (a[1], a[2])
     if a[0] in ("ok", "err", "some", "none"):
         return "%s %s" % (a[1], {"ok": "is Ok", "err": "is Err", "some": "is Some", "none": "is None"}[a[0]])
+    if a[0] == "switch" and a[2] == "in" and " " not in a[1]:
+        # same form as two paths `x == a`, `x == b` merged by accept.merge_value_sets
+        return "%s in {%s}" % (a[1], ",".join(str(v) for v in a[3]))
     return " ".join(str(x) for x in a)
